@@ -247,6 +247,74 @@ fn threads(ctx: &Ctx) -> usize {
   sink.total + rsink.total
 }
 
+/// the process-wide child-limit strategy under concurrent faults: four threads keep issuing births that are refused inside
+/// the strategy (start of luck beyond year 9999) while six threads issue valid births; every valid request must return
+/// what the same request returns afterwards, alone
+fn threads_strategy(ctx: &Ctx) -> usize {
+  let mut sink = ctx.sink("Trace_C10", "thrq");
+  let rounds = if ctx.quick() { 2 } else { 12 };
+  let per = if ctx.quick() { 500 } else { 1500 };
+  sink.segment();
+  for round in 0..rounds {
+    let rets: Vec<Vec<(Vec<i64>, Vec<i64>)>> = std::thread::scope(|s| {
+      let hs: Vec<_> = (0..10u64).map(|t| {
+        let mut trng = Rng::new(ctx.seed ^ (0xC10 + round as u64 * 977 + t));
+        s.spawn(move || {
+          let mut out = Vec::new();
+          for _ in 0..per {
+            if t < 4 {
+              // refused inside the strategy: births of the last supported years
+              let a = vec![trng.range(5373484 - 1200, 5373484 - 10), trng.range(0, 23), trng.range(0, 59), trng.range(0, 59), trng.range(0, 1)];
+              let _ = answer(9, &a);
+            } else {
+              let a = vec![trng.range(1721424 + 12000, 5373484 - 5000), trng.range(0, 23), trng.range(0, 59), trng.range(0, 59), trng.range(0, 1)];
+              let w = answer(9, &a);
+              out.push((a, w));
+            }
+          }
+          out
+        })
+      }).collect();
+      hs.into_iter().map(|h| h.join().unwrap()).collect()
+    });
+    // the same requests again, one by one, with nothing running beside them
+    for t in rets {
+      for (a, w) in t {
+        let c = answer(9, &a);
+        sink.put(Ev::new("q").i("s", 1).i("fam", 9).a("a", &a).a("w", &w).a("c", &c).done());
+      }
+    }
+  }
+  sink.total
+}
+
+/// the leap month of every lunar year: the warm process against five fresh processes (a table decoded into a hash map
+/// must not let the iteration order of one process decide an answer)
+fn leap_table(ctx: &Ctx) -> usize {
+  let mut sink = ctx.sink("Trace_C10", "leap");
+  sink.segment();
+  let a = vec![-1i64, 9999];
+  let w = answer(19, &a);
+  let n = if ctx.quick() { 5 } else { 12 };
+  let cs: Vec<Vec<i64>> = std::thread::scope(|s| {
+    let hs: Vec<_> = (0..n).map(|_| { let a = a.clone(); s.spawn(move || { let c = fresh_answer(19, &a); tick(); c }) }).collect();
+    hs.into_iter().map(|h| h.join().unwrap()).collect()
+  });
+  for (k, c) in cs.iter().enumerate() {
+    // one event per block of 500 years so that a difference is reported with its years
+    for b in 0..21usize {
+      let lo = b * 500;
+      let hi = ((b + 1) * 500).min(w.len());
+      if lo >= hi {
+        break;
+      }
+      let cw: Vec<i64> = if c.len() == w.len() { c[lo..hi].to_vec() } else { c.clone() };
+      sink.put(Ev::new("q").i("s", 1).i("fam", 19).a("a", &[lo as i64 - 1, hi as i64 - 2, k as i64]).a("w", &w[lo..hi]).a("c", &cw).done());
+    }
+  }
+  sink.total
+}
+
 fn fresh_answer(fam: i64, a: &[i64]) -> Vec<i64> {
   let exe = std::env::current_exe().unwrap();
   let mut cmd = Command::new(exe);
@@ -564,7 +632,7 @@ fn lazy_programs(ctx: &Ctx) -> usize {
 
 pub fn run(ctx: &Ctx) -> usize {
   QUICK.store(ctx.quick(), std::sync::atomic::Ordering::Relaxed);
-  histories(ctx) + collisions(ctx) + pools(ctx) + threads(ctx) + mixed(ctx) + lazy(ctx) + lazy_programs(ctx)
+  histories(ctx) + collisions(ctx) + pools(ctx) + threads(ctx) + threads_strategy(ctx) + leap_table(ctx) + mixed(ctx) + lazy(ctx) + lazy_programs(ctx)
 }
 
 /// `tvh ask fam a1 a2 ...` — one query in a fresh process
